@@ -14,6 +14,7 @@ REQUIRED = [
     # integrated layer (Props/C01parse.lean)
     "CifModel.C01_bare_unk_iff", "CifModel.C01_quoted_is_char", "CifModel.C01_text_is_char", "CifModel.C01_cif1_brackets_quoted",
     "CifModel.C01_cif2_brackets_invalid", "CifModel.C01_error_free_policy_independent", "CifModel.C01_cstr_id",
+    "CifModel.C01_structure", "CifModel.C01_parse_render_partial", "CifModel.C01_layout_independent",
 ]
 GEN = ["CharClass", "ErrCodes"]
 FAMILIES = ["lex", "parsedoc"]
@@ -41,10 +42,15 @@ ASSUMPTIONS = [
 PARTIAL = [
     "lexical layer: proved (Props/C01.lean).  Integrated layer (Props/C01parse.lean): proved are the value-construction theorems "
     "C01_bare_unk_iff ('?' / '.' read as unknown / not-applicable exactly when unquoted), C01_quoted_is_char / C01_text_is_char, "
-    "C01_cif1_brackets_quoted / C01_cif2_brackets_invalid, and C01_error_free_policy_independent; C01_structure and C01_parse_render "
-    "(for every document and layout the productions build denote(d) and report nothing) are NOT proved — the statement is kept as "
-    "C01_parse_render_full (def … : Prop), instances incl. the three combinations named in the property's rationale are evaluated by "
-    "the kernel, and the quantifier over documents x layouts is covered by the `parsedoc` correspondence family (grammar-directed "
+    "C01_cif1_brackets_quoted / C01_cif2_brackets_invalid, C01_error_free_policy_independent, and C01_STRUCTURE: over the token "
+    "sequence of every well-formed abstract document of Spec/Grammar.lean (blocks, one level of save frames, scalars, loops, lists / "
+    "tables of any depth, every presentation incl. folded / prefixed text fields) the productions report nothing, return CIF_OK and "
+    "store exactly denote(d), under every policy (Lemmas/ParserStructure.lean: structural induction, store view lemmas).  "
+    "C01_parse_render is proved as C01_parse_render_partial and C01_layout_independent with ONE hypothesis left: that the characters "
+    "make the scanner deliver the token sequence of the document (`Feeds`; for render(d, layout) this is the composition of the "
+    "scanner group's C01_lex_* theorems along the document, which is not carried out); C01_parse_render_full stays a def.  Instances "
+    "incl. the three combinations named in the property's rationale are evaluated by the kernel, and the quantifier over documents "
+    "x layouts at the character level is covered by the `parsedoc` correspondence family (grammar-directed "
     "documents x random layouts through the real parser, oracle: no callback, dump = denote(doc) computed in Python).",
 ]
 LEVEL_TEXT = ("Proof (partial: lexical layer). Lean theorems about an executable model of next_token and the scan_* functions: "
